@@ -719,3 +719,11 @@ fn replay(opts: &Opts, d: &Value, acc: &mut Acc) {
         }
     }
 }
+
+/// libFuzzer entry: JSON binding of one generated value (graphs need child processes and stay
+/// with the harness)
+pub fn fuzz_case(genome: &[u8], acc: &mut Acc) -> Vec<Failure> {
+    let mut g = G::new(genome);
+    let v = gen_jsonable(&mut g, 3);
+    check_json_binding(&v, "fuzz", acc)
+}
